@@ -135,6 +135,51 @@ def stateless_kernel_case(col):
     col.add(None if log == want else {"sig": "native::engine::stateless_kernel_lifecycle", "what": f"kernel with an empty state received {log}, expected {want}", "input": {"schedule": sched}})
 
 
+def two_engines_one_builder_case(col):
+    """two engines built from ONE builder (second build after the first engine was run / with the runs interleaved): each drives its kernel through the complete
+    schedule - same lifecycle trace as a single engine"""
+    import jax.numpy as jnp
+    import liesel.goose as gs
+    sched = [(0, 1, 1), (1, 4, 1), (3, 2, 1), (4, 4, 1)]
+    want = [tuple(r) for r in expected_trace(sched, False)]
+
+    def builder():
+        b = gs.EngineBuilder(seed=1, num_chains=2)
+        b.set_epochs([mk_cfg(*c) for c in sched])
+        b.set_model(gs.DictInterface(lambda s_: 0.0))
+        b.set_initial_values({"p0": jnp.zeros(()), "p1": jnp.zeros(())})
+        b.show_progress = False
+        return b
+
+    bad = None
+    for mode in ("sequential", "interleaved"):
+        b = builder()
+        k1, k2 = RecordingKernel(["p0"]), RecordingKernel(["p0"])
+        b.add_kernel(k1)
+        e1 = b.build()
+        if mode == "sequential":
+            e1.sample_all_epochs()
+        b._kernels = []  # (a fresh kernel object for the second engine; the builder keeps everything else)
+        b.add_kernel(k2)
+        b.set_engine_seed(2)
+        e2 = b.build()
+        try:
+            if mode == "interleaved":
+                for _ in sched:
+                    e1.sample_next_epoch()
+                    e2.sample_next_epoch()
+            else:
+                e2.sample_all_epochs()
+        except Exception as e:
+            bad = bad or f"{mode}: {type(e).__name__}: {str(e)[:100]}"
+            continue
+        for nm, e in (("first", e1), ("second", e2)):
+            got = kernel_logs(e)[0][0]
+            if got != want:
+                bad = bad or f"{mode}: the {nm} engine's kernel received {len(got)} lifecycle calls {_fmt(got[0]) if got else ''}..., a single engine with this schedule makes {len(want)}"
+    col.add(None if bad is None else {"sig": "native::engine::two_engines_from_one_builder", "what": bad, "input": {"schedule": sched}})
+
+
 def _fmt(e):
     return f"{NAMES.get(e[0], e[0])}(epoch={e[1]}, type={e[2]}, time_in_epoch={e[3]}, time={e[4]}, history={e[5]})"
 
@@ -166,6 +211,10 @@ def bounded(tier, seed):
             sched = [(0, 1, 1)] + [(t, 2, 1) for t in ts]
             cases.append((sched, 2, 1, 1, (True, False), "all"))
             cases.append((sched, 1, 2, 2, (False, True), "incremental"))
+    try:
+        two_engines_one_builder_case(col)
+    except Exception as e:
+        col.add({"sig": "native::engine::exception", "what": f"two engines from one builder: {type(e).__name__}: {str(e)[:200]}", "input": {"scenario": "two engines from one builder"}})
     try:
         stateless_kernel_case(col)
     except Exception as e:
